@@ -133,8 +133,10 @@ type VC struct {
 	paramOrder []string
 	ghostType map[string]types.Type
 	qhyps    []qhyp
+	zarrs    map[string]string
+	retLines []string
 	goalSk   []T
-	goalIdx  []T
+	goalIdx  [][2]T
 	pendingHints []T
 	splits   []T // case-split candidates (e.g. append fits in place) for obligations the solvers cannot decide whole
 }
@@ -313,6 +315,7 @@ const basePrelude = `(declare-datatypes ((Slice 0)) (((mk_slice (s_ref Int) (s_o
 (declare-sort Coins 0)
 (declare-fun coins_amt (Coins Str) Int)
 (declare-fun coins_nil () Coins)
+(declare-fun coins_valid (Coins) Bool)
 (assert (forall ((d Str)) (! (= (coins_amt coins_nil d) 0) :pattern ((coins_amt coins_nil d)))))
 (declare-sort Ctx 0)
 (declare-fun ctx_height (Ctx) Int)
@@ -404,7 +407,7 @@ func (vc *VC) zero(t types.Type) T {
 		}
 		return app("mk_"+s, fs...)
 	case *types.Array:
-		return "((as const " + s + ") " + vc.zero(u.Elem()) + ")"
+		return vc.constArray(s, vc.zero(u.Elem()))
 	}
 	vc.errorf("no zero value for %s", t)
 	return "0"
@@ -769,4 +772,29 @@ type edgeState struct {
 	guard T
 	st    *State
 	from  *ssa.BasicBlock
+}
+
+// constArray is the array whose every element is z. cvc5 only accepts literal values in
+// (as const ...), so other element terms get a fresh array constant with a defining axiom.
+func (vc *VC) constArray(arraySort string, z T) T {
+	literal := true
+	for _, tok := range strings.FieldsFunc(z, func(r rune) bool { return r == '(' || r == ')' || r == ' ' }) {
+		if strings.Contains(tok, "!") {
+			literal = false
+		}
+	}
+	if literal {
+		return "((as const " + arraySort + ") " + z + ")"
+	}
+	key := "zarr:" + arraySort + ":" + z
+	if vc.zarrs == nil {
+		vc.zarrs = map[string]string{}
+	}
+	if c, ok := vc.zarrs[key]; ok {
+		return c
+	}
+	c := vc.fresh("zarr", arraySort)
+	vc.assume("(forall ((zi Int)) (! (= (select " + c + " zi) " + z + ") :pattern ((select " + c + " zi))))")
+	vc.zarrs[key] = c
+	return c
 }
